@@ -10,6 +10,7 @@ constructs: programs assembled from templates for the user errors named in the s
             non-callable heads, ...)
 fuzz      : the C17 token-level fuzzer (mutated corpus statements, generated programs, token soup) pushed through
             parsing, grounding, compilation and evaluation."""
+import itertools
 import os
 import tempfile
 
@@ -213,7 +214,7 @@ def _arg_strategy(file_builtin, position, kind="builtin", last=False):
         return st.sampled_from(_FILE_FIRST if position == 0 else FILE_SAFE)
     if kind == "define" and not last:
         return st.one_of(st.sampled_from(_CLOSED), st.sampled_from(_CLOSED), st.sampled_from(_CLOSED),
-                         st.sampled_from(GOALS), st.sampled_from([_V("X"), _V("Y")]))
+                         st.sampled_from(GOALS))
     return st.one_of(st.sampled_from(ATOMIC), st.sampled_from(ATOMIC), st.sampled_from(STRUCT), st.sampled_from(GOALS))
 
 
@@ -228,6 +229,15 @@ def _builtin_cases(draw):
     n = max(0, arity + delta)
     args = [draw(_arg_strategy(is_file, i, kind, last=(i == n - 1))) for i in range(n)]
     return {"lib": lib, "name": name, "arity": arity, "args": args, "wrap": draw(st.sampled_from(WRAPS))}
+
+
+_VARIADIC = ("call", "call_nc", "try_call", "call_in_scope", "write", "writeln", "writenl", "debugprint", "error")
+_PAIR_POOL = {"quick": [_V("X"), _A("a"), _I(1), ["str", "abc"], _lst([_I(1), _I(2), _I(3)]), _lst([_A("a"), _A("b")], _V("T")),
+                        ["cmp", "f", [_V("Y")]], ["float", 0.5]]}
+_PAIR_POOL["thorough"] = _PAIR_POOL["quick"] + [_I(0), _I(-1), _A("[]"), _lst([_A("a")], _A("b")), ["bin", "+", _I(1), _A("a")],
+                                                ["cmp", "g", [_A("a"), _A("b")]], _V("X")]
+_TRIPLE_POOL = {"quick": [_V("X"), _I(1), _A("a"), _lst([_A("a"), _A("b")], _V("T"))]}
+_TRIPLE_POOL["thorough"] = _PAIR_POOL["quick"]
 
 
 def _enum_builtin_cases(tier):
@@ -245,11 +255,21 @@ def _enum_builtin_cases(tier):
         if arity == 0:
             yield {"lib": lib, "name": name, "arity": 0, "args": [], "wrap": "body"}
             continue
+        if kind != "define" and not is_file and arity in (2, 3) and name not in _VARIADIC:
+            # all combinations of a small pool: mode checks depend on argument *combinations*
+            # (length([a,b|T], 1), arg(0, f(X), Y), between(1, a, X), ...)
+            for combo in itertools.product(_PAIR_POOL[tier] if arity == 2 else _TRIPLE_POOL[tier], repeat=arity):
+                # as a query: the builtin is evaluated without an enclosing clause (whose evaluation would turn an
+                # escaping UnifyError into failure)
+                yield {"lib": lib, "name": name, "arity": arity, "args": list(combo), "wrap": "query"}
         for u in pool:
             yield {"lib": lib, "name": name, "arity": arity, "args": [u] * arity, "wrap": "body"}
+            if kind != "define":
+                yield {"lib": lib, "name": name, "arity": arity, "args": [u] * arity, "wrap": "neg"}
         if kind == "define" and arity >= 1 and not is_file:
-            # closed arguments with the last position unbound (the usual output position)
-            for u in pool:
+            # closed arguments with the last position unbound (the usual output position); several list predicates
+            # enumerate for ever on that (member(a, Out)), so this part runs in the thorough tier only
+            for u in (pool if tier == "thorough" else []):
                 yield {"lib": lib, "name": name, "arity": arity, "args": [u] * (arity - 1) + [_V("Out")], "wrap": "body"}
         elif arity >= 2 and not is_file:
             # distinct variables everywhere, and each argument position bound in turn
@@ -331,7 +351,7 @@ def check_builtin(case):
     eng = harness_engine()
     res = plrun.run_problog(src, engine=eng)
     sig = "%s/%s" % (case["name"], len(case["args"]))
-    reached = sig in eng.seen_calls
+    reached = sig in eng.seen_calls or (case["wrap"] in ("query", "evidence") and "<builtin>" in eng.seen_calls)
     feats = ["wrap:" + case["wrap"], "arity-delta:%d" % (len(case["args"]) - case["arity"])]
     if case["lib"]:
         feats.append("lib:" + case["lib"])
@@ -367,7 +387,7 @@ TEMPLATES = [
     # clause heads that are not callable
     "{T} :- c.", "{T}.", "{T} :- {T}.", "p :- {T}.", "p :- {T}, {T}.", "p :- \\+ {T}.", "p :- ({T} ; {T}).", "p :- call({T}).",
     "p(X) :- X.", "p :- X.", "p :- X, c.", "p :- \\+ X.", "p(X) :- call(X, 1).", "p :- 1.", "p :- \"s\".", "p :- [c].", "p :- f(X), X.",
-    "a ; b :- c.", "a ; 0.5::b :- c.", "p :- q. q :- p.", "p :- \\+ p.", "p :- \\+ q. q :- \\+ p.", "p(X) :- p(f(X)).",
+    "a ; b :- c.", "a ; 0.5::b :- c.", "p :- q. q :- p.", "p :- \\+ p.", "p :- \\+ q. q :- \\+ p.",
     # arithmetic
     "p :- X is {A}.", "p :- X is {A}, Y is {A}.", "p :- {A} < {A}.", "p :- {A} =:= {A}.", "p :- {A} >= 1.", "p(X) :- f(X), Y is X + {A}.",
     "p :- 1 is {A}.", "p :- a is {A}.", "p :- X is {A}, X > 0.", "0.5::p :- X is {A}.", "p :- f(X), Z is X / (X - 1).", "p :- {A} =\\= a.",
@@ -387,7 +407,7 @@ TEMPLATES = [
     ":- f(X), writeln(X).", ":- initialization({T}).", ":- set_prolog_flag(a, b).", ":- unknown({T}).", ":- unknown(fail).",
     ":- c.", ":- query(c).", ":- dynamic {T}.", ":- table p/1.", ":- p, \\+ q.",
     # library misuse
-    ":- use_module(library(lists)). p :- member({T}, {T}).", ":- use_module(library(lists)). p :- append({T}, {T}, _).",
+    ":- use_module(library(lists)). p :- member({T}, [a, {T}]).", ":- use_module(library(lists)). p :- append([a], {T}, _).",
     ":- use_module(library(lists)). p :- sum_list({T}, _).", ":- use_module(library(lists)). p :- nth0({T}, {T}, _).",
     ":- use_module(library(apply)). p :- maplist({T}, {T}).", ":- use_module(library(apply)). p :- foldl({T}, {T}, 0, _).",
     ":- use_module(library(assert)). p :- assertz({T}).", ":- use_module(library(assert)). p :- retract({T}).",
@@ -509,17 +529,81 @@ def _render_builtin(case):
 
 SUBCHECKS = [
     SubCheck("builtin", check_builtin, strategy=_builtin_cases, enumerate=_enum_builtin_cases,
-             budget={"quick": 6000, "thorough": 300000}, timeout={"quick": 3, "thorough": 20}, render=_render_builtin,
+             budget={"quick": 3000, "thorough": 300000}, timeout={"quick": 2, "thorough": 20}, render=_render_builtin,
              exhaustive="every registry entry x uniform argument vectors (all variables / atoms / ints / lists / strings / "
                         "compounds / partial lists / floats) and each of the first 4 positions bound in turn"),
     SubCheck("constructs", check_construct, strategy=_construct_cases, enumerate=_enum_constructs,
-             budget={"quick": 3000, "thorough": 150000}, timeout={"quick": 5, "thorough": 20},
+             budget={"quick": 2000, "thorough": 150000}, timeout={"quick": 2, "thorough": 20},
              render=lambda c: c["src"],
              exhaustive="every template with every filler of each hole (one hole varied at a time)"),
-    SubCheck("fuzz", check_fuzz, strategy=_fuzz_strategy, budget={"quick": 6000, "thorough": 300000},
-             timeout={"quick": 5, "thorough": 20}, render=lambda c: c["src"]),
+    SubCheck("fuzz", check_fuzz, strategy=_fuzz_strategy, budget={"quick": 3000, "thorough": 300000},
+             timeout={"quick": 2, "thorough": 20}, render=lambda c: c["src"]),
 ]
+
+def _case_text(case):
+    if isinstance(case, dict) and "src" in case:
+        return case["src"]
+    if isinstance(case, dict) and "name" in case:
+        return render_builtin_program(case, tmp="$TMP")
+    return ""
+
+
+def _statements(case):
+    """Parsed statements of the case's program text ([] when it does not parse)."""
+    from problog.program import PrologString
+
+    try:
+        with plrun.captured_output():
+            return list(PrologString(_case_text(case)))
+    except Exception:  # noqa
+        return []
+
+
+def _subterms(t, depth=0):
+    from problog.logic import Term
+
+    if depth > 40 or not isinstance(t, Term):
+        return
+    yield t
+    for a in t.args:
+        if isinstance(a, list):
+            for b in a:
+                for x in _subterms(b, depth + 1):
+                    yield x
+        else:
+            for x in _subterms(a, depth + 1):
+                yield x
+
+
+def _cls_recursive_body_disjunction(case, failure):
+    """A clause that calls its own head predicate and whose body contains a disjunction."""
+    from problog.logic import Clause, Or
+
+    for st_ in _statements(case):
+        if isinstance(st_, Clause) and st_.head is not None:
+            subs = list(_subterms(st_.body))
+            if any(type(x) is Or for x in subs) and any(
+                    getattr(x, "signature", None) == st_.head.signature for x in subs):
+                return True
+    return False
+
+
+def _cls_calls(*names):
+    """The program text calls one of the given predicates (name/arity or bare name)."""
+    def pred(case, failure):
+        if isinstance(case, dict) and "name" in case and case["name"] in names:
+            return True
+        for st_ in _statements(case):
+            for x in _subterms(st_):
+                if str(getattr(x, "functor", "")).strip("'") in names:
+                    return True
+        return False
+    return pred
+
 
 KNOWN_CLASSES = {
     "always": lambda case, failure: True,
+    "recursive_body_disjunction": _cls_recursive_body_disjunction,
+    "state_builtins": _cls_calls("set_state", "reset_state", "check_state", "condition", "probabilityX", "print_state"),
+    "db_library": _cls_calls("csv_load", "sqlite_load"),
 }
